@@ -15,6 +15,8 @@ HSM-CONTENT.O6-exit: every EXIT goes to the ancestor of the current state at dep
 HSM-CONTENT.O6-lca : where trans_ returns index r, an identity test between A(current, m) and A(target, q) passed on that path, exactly m
                      states were exited and r == q-1: exits stop and entries start at one and the same tested common state (for a self
                      transition the pair of parents: the source is exited and re-entered).
+HSM-CONTENT.O7-noraise : every raise statement in dispatch/trans_ is unreachable in the abstract semantics of protocol-following charts
+                     (answers are never None, a parent differs from its child, an init target lies inside the state that takes it).
 Not decided: that branches (a)-(g) select the *least* common ancestor for every pair (S, T) - functional correctness of a search
 over a runtime tree.
 """
@@ -41,11 +43,13 @@ def check(run, model, tier):
     run.rule('HSM-CONTENT.O5-content', 'ENTRY is sent only through slots at or below the content frontier K (slots 0..K hold the 0..K-th ancestors of the target)')
     run.rule('HSM-CONTENT.O6-exit', 'every EXIT call goes to the state of the active chain at depth NX (NX = exits made so far in the step): exits climb from the current state one level at a time')
     run.rule('HSM-CONTENT.O6-lca', 'where the entry-path routine returns r: a state of the active chain at depth m was tested equal to the target\'s ancestor at depth q, NX == m and r == q-1 (parents for source == target)')
+    run.rule('HSM-CONTENT.O7-noraise', 'no raise statement of dispatch/trans_ is reachable by a chart that follows the handler protocol: a well-formed transition is never aborted half-way')
     cc = hsmrules.record_content_obligations(run, model, 'dispatch', cursor_at_entry=False)
     run.floor('content store obligations in dispatch+trans_', cc['O4-content'], 5)
     run.floor('content entry obligations in dispatch', cc['O5-content'], 2)
     run.floor('exit obligations in dispatch+trans_', cc['O6-exit'], 4)
     run.floor('common-ancestor obligations where trans_ returns', cc['O6-lca'], 1)
+    run.floor('raise statements in dispatch+trans_ proved unreachable for protocol-following charts', cc['O7-noraise'], 5)
     n = hsmrules.entry_loops(run, model, 'dispatch')
     run.floor('entry loops in dispatch', n, 2)
     hsmrules.lca_match_rule(run, model)
